@@ -58,6 +58,8 @@ type c15Gate struct {
 	up    bool           // scripted server (real-call histories): answer or stay silent
 	got   map[int32]bool // request ids this server has read
 	code  int32          // return code of the answers (0 = success; non-zero = server-side / framework error reply)
+	delay int            // ms: answer only after this delay (slow endpoint: set above the caller's deadline)
+	wrote map[int32]bool // request ids this server has written its answer for
 }
 
 var c15Gates []*c15Gate
@@ -168,8 +170,9 @@ func c15EidOfHost(h string) int {
 }
 
 type c15Registrar struct {
-	mu  sync.Mutex
-	eps []int
+	mu    sync.Mutex
+	eps   []int
+	inact []int // endpoints the registry lists as inactive
 }
 
 func (r *c15Registrar) Registry(context.Context, *tarsreg.ServantInstance) error   { return nil }
@@ -181,7 +184,11 @@ func (r *c15Registrar) QueryServant(context.Context, string) ([]tarsreg.Endpoint
 	for _, i := range r.eps {
 		out = append(out, c15Epf(i))
 	}
-	return out, nil, nil
+	var in []tarsreg.Endpoint
+	for _, i := range r.inact {
+		in = append(in, c15Epf(i))
+	}
+	return out, in, nil
 }
 func (r *c15Registrar) QueryServantBySet(ctx context.Context, id, _ string) ([]tarsreg.Endpoint, []tarsreg.Endpoint, error) {
 	return r.QueryServant(ctx, id)
@@ -190,14 +197,15 @@ func (r *c15Registrar) QueryServantBySet(ctx context.Context, id, _ string) ([]t
 // ---------- ops (the replayable case) and observations ----------
 
 type c15Op struct {
-	K     string `json:"k"`               // adv | out | call | check | reinst | refresh | net | up | code (D = return code of the server's answers)
+	K     string `json:"k"`               // adv | out | call | check | reinst | refresh | net | up | code (D = return code of the server's answers) | slow (D = ms the server waits before answering; 0 = off)
 	D     int64  `json:"d,omitempty"`     // adv: seconds
 	E     int    `json:"e"`               // out: endpoint whose attached adapter is charged; net: endpoint
 	Ok    bool   `json:"ok,omitempty"`    // out: answered / failed; net: reachable
 	Hash  int    `json:"hash,omitempty"`  // call: 0 none, 1 mod hash, 2 consistent hash
 	Code  uint32 `json:"code,omitempty"`  // call: hash code
 	Defer bool   `json:"defer,omitempty"` // call: if this is an answered probe, leave the reinstatement to a later "reinst"
-	L     []int  `json:"l,omitempty"`     // refresh: what the registry returns
+	L     []int  `json:"l,omitempty"`     // refresh: what the registry returns as active
+	I     []int  `json:"i,omitempty"`     // refresh: what the registry returns as inactive
 	// recorded
 	Lbl string `json:"lbl,omitempty"` // model labels with observations, Coq syntax
 	Txt string `json:"txt,omitempty"` // short human-readable trace of what happened
@@ -237,7 +245,8 @@ type c15Run struct {
 	reach   []bool
 	pending []int // adapters with an answered probe whose reinstatement has not run
 	pcall   map[int]bool
-	shrunk  bool
+	shrunk  bool         // a refresh dropped an endpoint that had an adapter from BOTH registry lists (ground truth: what the harness fed)
+	epOut   map[int]bool // endpoint-level ground truth: an adapter of it was blocked and none has been reinstated since
 	lastReq map[int]int64
 	fails   []Failure
 	c14     []Failure
@@ -269,7 +278,7 @@ func (r *c15Run) idOf(a *tars.AdapterProxy) (int, bool) {
 }
 
 type c15Snap struct {
-	st, q, pset, rr, ch, mh, reg, act uint64
+	st, q, pset, rr, ch, mh, reg, act, att uint64
 	attached                          map[int]int // eid -> aid
 }
 
@@ -321,6 +330,7 @@ func (r *c15Run) snap() c15Snap {
 	}
 	s.attached = map[int]int{}
 	for h, a := range r.mgr.Adapters() {
+		s.att |= c15MaskHosts([]string{h})
 		if i, ok := r.aid[a]; ok {
 			s.attached[c15EidOfHost(h)] = i
 		} else {
@@ -357,7 +367,7 @@ func (r *c15Run) obs(s c15Snap, full bool) string {
 		}
 		f = "(Some [" + strings.Join(rows, ";") + "])"
 	}
-	return fmt.Sprintf("(mkO %d %d %d %d %d %d %d %d %s)", s.st, s.q, s.pset, s.rr, s.ch, s.mh, s.reg, s.act, f)
+	return fmt.Sprintf("(mkO %d %d %d %d %d %d %d %d %d %s)", s.st, s.q, s.pset, s.rr, s.ch, s.mh, s.reg, s.act, s.att, f)
 }
 
 func c15List(l []int) string {
@@ -390,6 +400,7 @@ func (r *c15Run) always(op string, s c15Snap) {
 				r.fail("failover/blocked-with-fewer-than-2-failures", fmt.Sprintf("endpoint %d was taken out of rotation with %d failed call(s) since it was last (re)instated", sh.eid, sh.gfail))
 			}
 			r.classes["blocked"] = true
+			r.epOut[sh.eid] = true
 		}
 		if !sh.status && st && op != "reinst" {
 			r.fail("failover/unblocked-without-successful-probe", fmt.Sprintf("adapter %d (endpoint %d) went from blocked to active during %q", i, sh.eid, op))
@@ -397,6 +408,10 @@ func (r *c15Run) always(op string, s c15Snap) {
 		sh.status = st
 	}
 	for e := 0; e < c15Universe; e++ {
+		// whatever the registry did with it meanwhile: a blocked endpoint re-enters rotation only through a successful probe
+		if r.epOut[e] && !r.shrunk && r.inAnySelector(s, e) {
+			r.fail("failover/blocked-endpoint-back-in-rotation-without-probe", fmt.Sprintf("endpoint %d was blocked and no probe of it has been answered since, but after %q it is in a selector (rr=%b ch=%b mh=%b, registry active list=%b)", e, op, s.rr, s.ch, s.mh, s.reg))
+		}
 		if s.reg&(1<<uint(e)) == 0 {
 			continue
 		}
@@ -446,6 +461,7 @@ func (r *c15Run) reinstate(ai int) (string, c15Snap) {
 func (r *c15Run) afterReinstate(ai int) (string, c15Snap) {
 	sh := r.sh[ai]
 	sh.gfail, sh.streak = 0, 0
+	r.epOut[sh.eid] = false
 	s := r.snap()
 	h := r.adps[ai].VerifC15Health()
 	if !h.Status || !r.inSelectors(s, sh.eid) || h.FailCount != 0 || h.LastFailCount != 0 || h.SendCount != 0 {
@@ -461,7 +477,7 @@ func (r *c15Run) exec(op *c15Op, last bool) {
 	if r.e2e {
 		switch op.K {
 		case "call":
-			r.syncWall(r.timeoutMs+40, &lbl)
+			r.syncWall(r.timeoutMs+40+c15MaxDelay(), &lbl)
 		case "adv", "check", "refresh":
 			r.syncWall(0, &lbl)
 		case "out", "reinst":
@@ -501,6 +517,12 @@ func (r *c15Run) exec(op *c15Op, last bool) {
 		g.code = int32(op.D)
 		g.mu.Unlock()
 		op.Txt = fmt.Sprintf("server %d answers with return code %d", op.E, op.D)
+	case "slow":
+		g := c15Gates[op.E]
+		g.mu.Lock()
+		g.delay = int(op.D)
+		g.mu.Unlock()
+		op.Txt = fmt.Sprintf("server %d answers after %d ms", op.E, op.D)
 	case "out":
 		a, ok := r.mgr.Adapters()[c15Gates[op.E].host]
 		if !ok {
@@ -619,24 +641,53 @@ func (r *c15Run) exec(op *c15Op, last bool) {
 	case "refresh":
 		l := append([]int(nil), op.L...)
 		sort.Ints(l)
+		in := append([]int(nil), op.I...)
 		before := r.snap()
+		regBefore := r.mgr.Registry()
 		r.regr.mu.Lock()
 		r.regr.eps = l
+		r.regr.inact = in
 		r.regr.mu.Unlock()
 		r.mgr.Refresh()
 		s := r.snap()
-		if len(l) > 0 {
-			for e, ai := range before.attached {
-				_ = ai
-				if s.reg&(1<<uint(e)) == 0 {
+		// ground truth: the refresh takes effect iff the active list is non-empty and differs from the current one;
+		// then an endpoint with an adapter that is in NEITHER list loses its health record (scope of the streak clause left)
+		same := len(l) == len(regBefore)
+		for i := 0; same && i < len(l); i++ {
+			same = c15Gates[l[i]].host == regBefore[i]
+		}
+		if len(l) > 0 && !same {
+			listed := map[int]bool{}
+			for _, e := range l {
+				listed[e] = true
+			}
+			for _, e := range in {
+				listed[e] = true
+			}
+			for e := range before.attached {
+				if !listed[e] {
 					r.shrunk = true
+				} else if _, still := s.attached[e]; !still {
+					r.fail("failover/health-record-lost-at-refresh", fmt.Sprintf("endpoint %d is still listed by the registry (active %v, inactive %v) but its adapter - the health record - is gone after the refresh", e, l, in))
+				}
+			}
+			if len(in) > 0 {
+				r.classes["refresh-inactive"] = true
+				for _, e := range in {
+					if r.epOut[e] {
+						r.classes["blocked-moved-inactive"] = true
+					}
+				}
+			}
+			for _, e := range l {
+				if r.epOut[e] && before.reg&(1<<uint(e)) == 0 {
+					r.classes["blocked-relisted-active"] = true
 				}
 			}
 		}
-		// ground truth for the "always" monitor: what the manager holds now
 		r.always("refresh", s)
-		lbl = append(lbl, fmt.Sprintf("([Refresh %s], %s)", c15List(l), r.obs(s, true)))
-		op.Txt = fmt.Sprintf("refresh %v -> reg=%b rr=%b", l, s.reg, s.rr)
+		lbl = append(lbl, fmt.Sprintf("([Refresh %s %s], %s)", c15List(l), c15List(in), r.obs(s, true)))
+		op.Txt = fmt.Sprintf("refresh active %v inactive %v -> reg=%b rr=%b", l, in, s.reg, s.rr)
 		r.classes["refresh"] = true
 	}
 	op.Lbl = strings.Join(lbl, "; ")
@@ -737,7 +788,7 @@ func c15RunOnce(c *c15Case) (*c15Run, bool) {
 	c15Seq++
 	regr := &c15Registrar{}
 	comm := tars.NewCommunicator(tars.Registrar(regr))
-	r := &c15Run{regr: regr, aid: map[*tars.AdapterProxy]int{}, pcall: map[int]bool{}, lastReq: map[int]int64{}, classes: map[string]bool{}}
+	r := &c15Run{regr: regr, aid: map[*tars.AdapterProxy]int{}, pcall: map[int]bool{}, lastReq: map[int]int64{}, classes: map[string]bool{}, epOut: map[int]bool{}}
 	r.mgr = tars.VerifC15NewManager(fmt.Sprintf("VerifC15.Srv%d.Obj", c15Seq), comm)
 	r.up = append([]bool(nil), c.Up...)
 	for len(r.up) < c15Universe {
@@ -751,7 +802,9 @@ func c15RunOnce(c *c15Case) (*c15Run, bool) {
 		g.mu.Lock()
 		g.up = r.up[i]
 		g.got = nil
+		g.wrote = nil
 		g.code = 0
+		g.delay = 0
 		g.mu.Unlock()
 	}
 	if c.E2E {
